@@ -424,6 +424,94 @@ def provisionAccepts : List (Bytes × RangeVerdict) → Bool
   | [] => true
   | (e, v) :: rest => if rangeAccepted e v then provisionAccepts rest else false
 
+/-! ### the PROXY protocol listener wrapper (modules/caddyhttp/proxyprotocol)
+It runs before any HTTP code and decides what `RemoteAddr` IS: listenerwrapper.go `Provision`
+(the `ConnPolicyFunc` closure), policy.go (`fallback_policy` names), and what go-proxyproto's
+`Listener.Accept` / `Conn.readHeader` do with the chosen policy. -/
+
+/-- policy.go `Policy` (caddy's numbering: IGNORE is the zero value, hence the default) -/
+inductive PPolicy where
+  | ignore | use | reject | require | skip
+deriving DecidableEq, Repr
+
+/-- `strings.ToUpper` on ASCII -/
+def asciiUpper (s : Bytes) : Bytes := s.map (fun c => if 97 ≤ c && c ≤ 122 then c - 32 else c)
+
+/-- policy.go `parsePolicy` (`UnmarshalText`): `policyMapRev[strings.ToUpper(name)]`; `none` = "invalid policy" -/
+def parsePolicy (name : Bytes) : Option PPolicy :=
+  if asciiUpper name = [73, 71, 78, 79, 82, 69] then some .ignore                  -- IGNORE
+  else if asciiUpper name = [85, 83, 69] then some .use                            -- USE
+  else if asciiUpper name = [82, 69, 74, 69, 67, 84] then some .reject             -- REJECT
+  else if asciiUpper name = [82, 69, 81, 85, 73, 82, 69] then some .require        -- REQUIRE
+  else if asciiUpper name = [83, 75, 73, 80] then some .skip                       -- SKIP
+  else none
+
+/-- `caddy.IsUnixNetwork(network) || caddy.IsFdNetwork(network)`: `strings.HasPrefix(netw, "unix")` / `"fd"` -/
+def unixOrFd (network : Bytes) : Bool :=
+  ([117, 110, 105, 120] : Bytes).isPrefixOf network || ([102, 100] : Bytes).isPrefixOf network
+
+/-- the provisioned wrapper -/
+structure PPCfg (Prefix : Type) where
+  allow : List Prefix
+  deny : List Prefix
+  fallback : PPolicy
+
+/-- what the `ConnPolicyFunc` returns: a policy, or an error (the connection is not accepted) -/
+inductive PolicyResult where
+  | policy (p : PPolicy)
+  | refuse
+deriving DecidableEq, Repr
+
+section
+variable {Addr Prefix : Type}
+
+/-- listenerwrapper.go, the closure assigned to `pp.policy`.  NOTE: the host is parsed as it stands —
+    a zone (`fe80::1%eth0`) is NOT cut off here, unlike in server.go. -/
+def connPolicy (N : Net Addr Prefix) (cfg : PPCfg Prefix) (network peer : Bytes) : PolicyResult :=
+  if unixOrFd network then .policy .use                     -- "trust unix sockets"
+  else
+    match splitHostPort peer with
+    | none => .refuse
+    | some hp =>
+      match N.parseAddr hp.1 with
+      | none => .refuse
+      | some ip =>
+        if cfg.deny.any (fun r => N.contains r ip) then .policy .reject
+        else if cfg.allow.any (fun r => N.contains r ip) then .policy .use
+        else .policy cfg.fallback
+
+/-- an accepted connection as the HTTP server sees it -/
+structure Accepted where
+  remote : Bytes         -- `conn.RemoteAddr().String()`
+  readOK : Bool          -- the first `Read` succeeds
+deriving DecidableEq, Repr
+
+/-- go-proxyproto `Listener.Accept` + `Conn.readHeader` + `Conn.RemoteAddr` under a policy.
+    `claim` = the source address a PROXY header sent by the peer claims (`none` = no header). -/
+def underPolicy (p : PPolicy) (peer : Bytes) (claim : Option Bytes) : Accepted :=
+  match p, claim with
+  | .skip, _ => ⟨peer, true⟩                    -- not wrapped at all: the header (if any) is payload
+  | .reject, some _ => ⟨peer, false⟩            -- ErrSuperfluousProxyHeader
+  | .require, none => ⟨peer, false⟩             -- ErrNoProxyProtocol
+  | .use, some src => ⟨src, true⟩
+  | .require, some src => ⟨src, true⟩
+  | _, _ => ⟨peer, true⟩                        -- IGNORE with a header; USE / REJECT / IGNORE without
+
+/-- one connection through the wrapper; `none` = not accepted -/
+def wrapAccept (N : Net Addr Prefix) (cfg : PPCfg Prefix) (network peer : Bytes) (claim : Option Bytes) :
+    Option Accepted :=
+  match connPolicy N cfg network peer with
+  | .refuse => none
+  | .policy p => some (underPolicy p peer claim)
+
+end
+
+/-- `Provision`: every `allow` / `deny` expression goes through `netip.ParsePrefix` (CIDRs only: a bare
+    address is an error here), the JSON `fallback_policy` through `parsePolicy`; absent = IGNORE -/
+def ppFallback : Option Bytes → Option PPolicy
+  | none => some .ignore
+  | some name => parsePolicy name
+
 /-! ### Caddyfile glue: how the options above are read
 httpcaddyfile/serveroptions.go (`trusted_proxies static …`, `trusted_proxies_strict`,
 `client_ip_headers …` of the global `servers` block), ip_range.go `StaticIPRange.UnmarshalCaddyfile`,
